@@ -161,6 +161,39 @@ def run(ctx):
                 fail('unknown_not_flagged_json', {'cat': c, 'name': name}, jn, {'fail': ['using unknown algorithm']})
             lines.append(rc.report_line(peer, False, imp['banner']))
             expect.append(('report', imp, (c, name)))
+    # the same unknown name more than once in one report (twice in a list, in two categories, two gss names with one wildcard): every occurrence is flagged, in text and JSON
+    for k in range(ctx.scale(12, 120)):
+        shape = r.choice(['plain', 'at', 'long', 'eq'])
+        name = pg.unknown_name(r, shape)
+        base = {'kex': ['curve25519-sha256', pg.STRICT_S, pg.STRICT_C], 'key': ['ssh-ed25519'], 'enc': ['aes256-ctr'], 'mac': ['hmac-sha2-256']}
+        how = ['twice-in-list', 'two-categories', 'gss-pair'][k % 3]
+        if how == 'twice-in-list':
+            c = r.choice(rc.CATS)
+            base[c] = [name] + base[c][:1] + [name] + base[c][1:]
+            occ = [(c, name), (c, name)]
+        elif how == 'two-categories':
+            c1, c2 = r.sample(rc.CATS, 2)
+            base[c1] = base[c1] + [name]
+            base[c2] = [name] + base[c2]
+            occ = [(c1, name), (c2, name)]
+        else:
+            stem = 'gss-zz%d-sha256-' % r.randrange(1000)
+            n1, n2 = stem + 'toWM5Slw5Ew8Mqkay+al2g==', stem + 'eipGX3TCiQSrx573bT1o1Q=='
+            base['kex'] = [n1] + base['kex'] + [n2]
+            occ = [('kex', n1), ('kex', n2)]
+        peer = rc.mk_peer(base['kex'], base['key'], base['enc'], base['mac'])
+        imp = rc.impl_report(peer)
+        cov.add(('unknown-repeated', how, json.dumps(base, sort_keys=True)), True, tags=['unknown-name', 'unknown-' + how])
+        for c, n_ in set(occ):
+            want_n = occ.count((c, n_))
+            notes = [x[1] for x in imp['algs'][c] if x[0] == n_]
+            jn = [j for m_, j in imp['json'][c] if m_ == n_]
+            if len(notes) != want_n or any(x != [['warn', 'unknown algorithm']] for x in notes):
+                fail('unknown_not_flagged', {'lists': base, 'cat': c, 'name': n_, 'repeated': how}, notes, [[['warn', 'unknown algorithm']]] * want_n)
+            if len(jn) != want_n or any(j.get('fail') != ['using unknown algorithm'] for j in jn):
+                fail('unknown_not_flagged_json', {'lists': base, 'cat': c, 'name': n_, 'repeated': how}, jn, [{'fail': ['using unknown algorithm']}] * want_n)
+        lines.append(rc.report_line(peer, False, imp['banner']))
+        expect.append(('report', imp, ('repeated-unknown', how)))
     model = ctx.driver(lines) if ctx.driver_ok else []
     for line, m, (kind, want, what) in zip(lines, model, expect):
         if kind == 'lookup':
@@ -208,6 +241,17 @@ def replay(obj):
     f = obj.get('failure', obj)
     print(json.dumps(f, indent=1)[:2500])
     inp = f['input']
+    if 'lists' in inp:
+        b = inp['lists']
+        imp = rc.impl_report(rc.mk_peer(b['kex'], b['key'], b['enc'], b['mac']))
+        c, n_ = inp['cat'], inp['name']
+        notes = [x[1] for x in imp['algs'][c] if x[0] == n_]
+        jn = [j for m_, j in imp['json'][c] if m_ == n_]
+        print('text notes per occurrence:', notes)
+        print('json notes per occurrence:', jn)
+        bad = any(x != [['warn', 'unknown algorithm']] for x in notes) or any(j.get('fail') != ['using unknown algorithm'] for j in jn) or not notes or len(notes) != len(jn)
+        print('PROPERTY FAILS' if bad else 'every occurrence is flagged in both views')
+        return 1 if bad else 0
     if 'list' in inp:
         db = pg.master()
         c, name = inp['cat'], inp['name']
